@@ -428,12 +428,18 @@ class _:
 KEY3 = TTuple([STR, INT, INT])
 
 
+g_has_tag = z3.Function("scaffold_has_tag", smt.Int, smt.Str, smt.Bool)  # ghost: the tags carried by the contigs of a scaffold
+
+
 @contract("tola.assembly.scaffold.Scaffold.fragment_tags", status="TRUSTED")
 class _:
+    # a new set holding the tags of the scaffold's contigs (as a fixed ghost relation of the scaffold: the callers
+    # under contract do not change the rows of the scaffold they ask)
     params = {"self": TRef("Scaffold")}
     result = TSet(STR)
     modifies = staticmethod(lambda o: [("alloc",)])
-    ensures = staticmethod(lambda o, n, res: z3.And(res.z >= o.alloc, res.z < n.alloc))
+    ensures = staticmethod(lambda o, n, res: z3.And(res.z >= o.alloc, res.z < n.alloc,
+                                                     (lambda x: z3.ForAll([x], res.has(x) == g_has_tag(o.self.z, x)))(z3.String("x!tag"))))
 
 
 def _leftover_row_post(v, b, e, o):
@@ -466,6 +472,23 @@ def _leftover_row_post(v, b, e, o):
     ]
 
 
+def _leftover_scaffold_post(v, b, o):
+    """one input scaffold: at most one left-over scaffold is added; C09: in Target mode it is a contaminant unless the
+    input scaffold carries a Target tag ('sequence absent from the map is treated as contaminant'); it takes the
+    haplotype the namer works out for it"""
+    s0, s1 = b.self.scaffolds, v.self.scaffolds
+    grew = s1.len == s0.len + 1
+    new = s1[s0.len]
+    namer = v.scaffold_namer
+    contaminant = z3.And(namer.target_tags, z3.Not(g_has_tag(b.scffld.z, z3.StringVal("Target"))))
+    return [
+        ("at-most-one-left-over-scaffold", z3.Or(grew, s1.len == s0.len)),
+        ("target-mode-left-overs-are-contaminants", z3.Implies(grew, z3.If(contaminant, z3.And(z3.Not(new.tag.is_none), new.tag.val == z3.StringVal("Contaminant")), new.tag.is_none))),
+        ("left-over-haplotype", z3.Implies(grew, new.haplotype.z == namer.current_haplotype.z)),
+        ("earlier-scaffolds-kept", forall(lambda k: z3.Implies(z3.And(0 <= k, k < s0.len), s1[k].z == s0[k].z))),
+    ]
+
+
 def _leftover_inv(v, e, o):
     src = v.top.scffld.rows
     k0 = v._it100
@@ -481,7 +504,7 @@ def _leftover_inv(v, e, o):
             nsv.z >= o.alloc, nsv.rows.z >= o.alloc, nsv.z < v.alloc, nsv.rows.z < v.alloc, nsv.rows.lo == 0, nsv.rows.len >= 1, 0 <= la.val, la.val < k0,
             nsv.rows[nsv.rows.len - 1].z == src[la.val].z, src[la.val].is_frag,
             # C08: the left-over piece keeps the name of the input scaffold it comes from (and is ranked as unplaced)
-            nsv.name == v.top.scffld.name, z3.Not(nsv.rank.is_none), nsv.rank.val == 3))))
+            nsv.name == v.top.scffld.name, z3.Not(nsv.rank.is_none), nsv.rank.val == 3, nsv.tag.is_none))))
     return out
 
 
@@ -511,7 +534,7 @@ class _O:
 from pyvc.values import TSet  # noqa: E402
 
 
-@contract(f"{M}.add_missing_scaffolds_from_input", properties=("C07", "C01", "C08"))
+@contract(f"{M}.add_missing_scaffolds_from_input", properties=("C07", "C01", "C08", "C09"))
 class _:
     params = {"self": BA, "input_asm": TRef("Assembly")}
     result = NONE
@@ -533,6 +556,7 @@ class _:
 
     loops = {
         0: LoopSpec(kind="for", iter_src="input_asm.scaffolds", types={"new_scffld": TOpt(TRef("Scaffold")), "last_added_i": TOpt(INT)},
+                    iter_post=lambda v, b, e, o: _leftover_scaffold_post(v, b, o),
                     inv=lambda v, e, o: [("objects", z3.And(v.self.z == o.self.z, v.input_asm.z == o.input_asm.z, v.found_frags.z == o.self.found_fragments.z,
                                                             v.scaffold_namer.z == o.self.scaffold_namer.z, v._it0_seq.z == o.input_asm.scaffolds.z)),
                                          ("counter", z3.And(0 <= v._it0, v._it0 <= o.input_asm.scaffolds.len))],
